@@ -88,6 +88,7 @@ type imp struct {
 // the property statements against the code; every line names the clause it serves).
 var propImports = map[string][]imp{
 	"C01": {
+		{"C01.19/one-transmission-per-connection", "C04", "a connection carries one request at a time: a pipe is in REQ's ready list only while it is idle, and only the scheduler, the end of a transmission, attach and detach change that list (two transmissions on one stream interleave their frames on transports that write a frame in several pieces)", []string{"C04.6/pipe-loss|readyQ-writers"}},
 		{"C01.18/core-passes-on", "C16", "the core hands on every message the transport delivered: pipe.RecvMsg gives up (and closes the pipe) only when the transport's Recv failed, so the receive limit that applies is the endpoint's own", []string{"C16.4/error-closes-only-that-pipe|pipe.RecvMsg"}},
 		{"C01.17/one-delivery-per-context", "C06", "one publication yields one receive per context: the SUB receiver queues a message once for a context however many of its subscriptions match", []string{"C06.2/receiver"}},
 		{"C01.16/cooked-bus-header", "C08", "a cooked BUS socket sends the body alone: a stale header of any length is discarded, not put on the wire in front of it", []string{"C08.2/bus-receive|bus.SendMsg"}},
@@ -97,6 +98,7 @@ var propImports = map[string][]imp{
 		{"C01.12/limit-read-per-connection", "C16", "the receive limit a message is checked against is the one configured when its connection is accepted: a stale limit drops messages the property says are delivered", []string{"C16.11/limit-read-per-connection"}},
 	},
 	"C02": {
+		{"C02.17/redial-timer", "C14", "a further connection attempt follows every loss: the redial timer is stopped and cleared only by the dialer's Close (a late attach notification that cancels it leaves the dialer silent for good, and the peer waiting for its turn is never admitted)", []string{"C14.13/timer-discipline|internal/core.dialer.redialer"}},
 		{"C02.16/framing", "C01", "each frame's length prefix is read completely before it is interpreted: a short read of the prefix turns the rest of the stream into messages nobody sent", []string{"C01.3/framing"}},
 		{"C02.15/no-peer-signal", "C18", "the 'ran out of peers' signal of PUSH is re-armed where it was raised: otherwise every send made after the last peer left and before the next one is admitted fails at once although fail-no-peers semantics only apply while there is no peer, and sends accepted later are refused", []string{"C18.4/fail-no-peers|xpush"}},
 		{"C02.13/api-copies", "C01", "Recv hands the application a private copy of the body: the delivered bytes do not change when the message is recycled", []string{"C01.8/api-copies"}},
@@ -168,11 +170,13 @@ var propImports = map[string][]imp{
 		{"C09.9/star-forward", "C08", "a STAR node forwards a private copy with the hop header intact whatever the local application does with its own copy", []string{"C08.4/star-forward"}},
 	},
 	"C10": {
+		{"C10.22/dialer-list", "C13", "Close closes the dialers in the socket's list: the list holds exactly the dialers created on the socket, and nothing but their creation writes it (a dialer dropped from the list keeps dialling after Close)", []string{"C13.14/core-state-writers|writers-of-dialers", "C13.14/core-state-writers|writers-of-listeners"}},
 		{"C10.20/nil-safe", "C12", "tear-down clears optional fields (timers, listeners, the peer): a call made after Close, or a Close of something that never started, fails or does nothing instead of dereferencing what is no longer there", []string{"C12.18/nil-safe"}},
 		{"C10.19/lock-order", "C11", "Close takes the socket's and the endpoints' locks: two paths that take them in opposite orders can leave both held for ever, and Close never returns", []string{"C11.2/E2"}},
 		{"C10.12/E10c", "C19", "a queue that a goroutine re-fills under the socket lock has room for it: otherwise that goroutine blocks holding the lock and Close never returns", []string{"C19.2/E10c"}},
 	},
 	"C11": {
+		{"C11.17/req-timers", "C18", "the library's own timer goroutines act only on the request they were armed for: a send deadline that fires after its send completed does not cancel the request that is waiting for its reply (Recv would return a result no sequential use allows)", []string{"C18.3/req-timers"}},
 		{"C11.15/nil-safe", "C12", "concurrent calls never crash the process: no use through an optional field where the module's own tests and assignments do not establish it, and no assignment into a map that may not have been made", []string{"C12.18/nil-safe"}},
 		{"C11.13/unsubscribe-prune", "C06", "unsubscribe prunes by draining the old queue into a fresh one without blocking: receivers take from the queue without the socket lock, so a pass that counts the queue and then receives that many times can block for ever holding the lock", []string{"C06.3/unsubscribe", "C06.9/queue-swap-wakes"}},
 		{"C11.14/context-state", "C05", "a RESPONDENT context's 'survey to answer' state is cleared and restored as a whole: a half-restored state lets the next SendMsg dereference a pipe that is not there", []string{"C05.2/context-send|protocol/respondent"}},
@@ -181,6 +185,7 @@ var propImports = map[string][]imp{
 		{"C11.9/ownership", "C17", "concurrent users of one socket never end up holding the same message or buffer", []string{"C17.1/E5", "C17.5/send-contract", "C17.7/fresh-backing-per-message"}},
 	},
 	"C12": {
+		{"C12.19/attach", "C13", "a connection lost while it is being attached is detached again: the attach and the record that it happened are one critical section with Close, so the protocol is told of the loss and admits the next peer", []string{"C13.1/addPipe"}},
 		{"C12.15/fail-no-peers", "C18", "losing the last peer fails the blocked senders once and leaves the socket usable for the next peer", []string{"C18.4/fail-no-peers"}},
 		{"C12.13/refused-device", "C19", "a Device call that is refused has started nothing", []string{"C19.7/refused-device-has-no-effect"}},
 		{"C12.14/close-affects-only-itself", "C10", "closing an endpoint that failed to start does not disturb the one that owns the address", []string{"C10.11/close-affects-only-itself"}},
@@ -189,6 +194,8 @@ var propImports = map[string][]imp{
 		{"C12.11/redial", "C14", "losing or failing a connection at any stage never stops a dialer from redialling", []string{"C14.2/backoff", "C14.5/redial-after-loss"}},
 	},
 	"C13": {
+		{"C13.17/wake-ups", "C10", "a dialer parked in the transport until its listener accepts again is woken when it does: every waiter is woken (the condition variable is shared by all addresses), so the listener and its dialer carry on after a pipe was closed while attaching", []string{"C10.1/cond|transport/inproc"}},
+		{"C13.18/pipe-options-after-close", "C19", "a pipe's read-only options answer for as long as the pipe object exists (in the Detached callback too): option getters answer with a value, bad-value or bad-option only, never 'closed'", []string{"C19.1/option-shape|transport.(*conn)", "C19.1/option-shape|transport/ws", "C19.1/option-shape|transport/inproc"}},
 		{"C13.16/redial-decision", "C14", "a pipe closed from a hook while it is attaching leaves the dialer redialling: the decision to schedule the next attempt depends on nothing but (asked to redial, closed, outcome)", []string{"C14.2/backoff"}},
 		{"C13.15/redial-after-loss", "C14", "a dialer's next pipe exists only if the loss of the previous one schedules the redial: every departure of a dialed pipe arms the timer while the dialer is open, whatever the current delay", []string{"C14.5/redial-after-loss"}},
 		{"C13.10/carry-on", "C12", "the listener and the dialer carry on accepting and redialling: a peer's failure is never reported as 'endpoint closed'", []string{"C12.5/ErrClosed-means-closed", "C12.3/endpoint-usable"}},
@@ -231,6 +238,7 @@ var propImports = map[string][]imp{
 		{"C18.10/inheritance", "C19", "a new context starts with the deadlines configured on the socket (send from send, receive from receive)", []string{"C19.4/inheritance"}},
 	},
 	"C19": {
+		{"C19.22/option-value-copied", "C06", "an accepted subscription is the bytes given at the time of the call: the stored topic is a copy, so what Get, matching and Unsubscribe see does not change when the caller reuses its buffer", []string{"C06.3/unsubscribe|subscription-is-a-copy"}},
 		{"C19.17/reconnect-reset", "C14", "ReconnectTime takes effect as documented whatever MaxReconnectTime is: after a successful attach the delay returns to it", []string{"C14.4/reset"}},
 		{"C19.18/ttl-range", "C09", "the TTL option accepts exactly 1..255 on every protocol that has it", []string{"C09.3/ttl-option"}},
 		{"C19.15/best-effort-takes-effect", "C18", "an accepted BestEffort / deadline value takes effect as documented on every send and receive path", []string{"C18.1/deadline-select"}},
